@@ -62,13 +62,15 @@ static void
 orc_x86_compiler_max_loop_shift (OrcX86Target *t, OrcCompiler *c)
 {
   int i;
-  int n = 2;
+  int n = 1;
 
-  for (i = 1; i; i++) {
-    if ((t->register_size / c->max_var_size) == n)
+  /* loop_shift = log2 (register_size / max_var_size); 0 when a variable
+   * fills the whole register (e.g. 8-byte variables on MMX) */
+  for (i = 0; i < 16; i++) {
+    if ((t->register_size / c->max_var_size) <= n)
       break;
     n *= 2;
-  } 
+  }
   c->loop_shift = i;
 }
 
